@@ -27,7 +27,8 @@ Definition err_code (e : err) : nat :=
 Definition obs_rows (r : res (list (list float))) : c13_obs :=
   match r with Ok rows => ORows rows | Err e => OErr (err_code e) end.
 
-(* list.sort() of the three levels: stable insertion with Python's `<` *)
+(* list.sort() of the three levels: stable insertion with fltb (Base/FloatInst.v: a total order that puts NaN
+   last); on non-NaN floats fltb is Python's `<`, and NaN level values are excluded (ASSUMPTIONS in harness/c13.py) *)
 Fixpoint finsert (x : float) (l : list float) : list float :=
   match l with
   | [] => [x]
